@@ -6,9 +6,12 @@ package sim
 // Rand is a splitmix64 generator. One run seed decides everything; independent
 // streams are split off by name so that adding a draw to one stream does not
 // shift another.
-type Rand struct{ s uint64 }
+type Rand struct {
+	s    uint64
+	root uint64 // the seed this stream was created with: Split derives from it, not from the moving state
+}
 
-func NewRand(seed uint64) *Rand { return &Rand{s: seed} }
+func NewRand(seed uint64) *Rand { return &Rand{s: seed, root: seed} }
 
 func Mix(z uint64) uint64 {
 	z = (z ^ (z >> 30)) * 0xBF58476D1CE4E5B9
@@ -39,9 +42,11 @@ func (r *Rand) Uint64() uint64 {
 	return Mix(r.s)
 }
 
-// Split returns an independent stream named name.
+// Split returns an independent stream named name. It depends on the stream's
+// original seed and the name only, never on how many values were drawn before.
 func (r *Rand) Split(name string) *Rand {
-	return &Rand{s: Mix(r.s ^ HashString(name) ^ 0xD6E8FEB86659FD93)}
+	s := Mix(r.root ^ HashString(name) ^ 0xD6E8FEB86659FD93)
+	return &Rand{s: s, root: s}
 }
 
 // Intn returns a value in [0, n). n <= 0 yields 0.
